@@ -20,13 +20,13 @@ type Prop struct{}
 func (Prop) ID() string    { return "C05" }
 func (Prop) Level() string { return "exploration" }
 func (Prop) Rule() string {
-	return "keys: guided random ACL histories of 4-25 accepted records over owner + 6 accounts + invite-key holders, built only through the real AclRecordBuilder (join by request, open-invite join, direct add, remove, leave request + removal, invite revoke with/without rotation, stand-alone rotation, re-add by add / request / batch, permission changes incl. on accounts without permissions, 12% deliberately illegal attempts); 10 of every 14 cases start with a scripted scenario prefix. After every accepted record: fresh validating AND keep-identity views of every principal from the raw log, key material vs harness ground truth, explicit derivation closure over every ciphertext of the log, exact-recipient check of every read-key change. A history is non-trivial when it contains >= 1 accepted removal (so an ex-member was observed against a later generation) and >= 2 members were observed at some point; distinct = accepted-operation sequence. trees: same generator (permission changes on accounts without permissions excluded, reported by the keys workload) with encrypted content written by current writers under each generation into a real any-store backed verifying tree; non-trivial = >= 2 generations carry content and >= 2 members read it back; distinct = accepted ops + write positions."
+	return "keys: guided random ACL histories of 4-25 accepted records over owner + 6 accounts + invite-key holders, built only through the real AclRecordBuilder (join by request, open-invite join, direct add, remove, leave request + removal, invite revoke with/without rotation, stand-alone rotation, re-add by add / request / batch, permission changes incl. on accounts without permissions, 12% deliberately illegal attempts); 10 of every 14 cases start with a scripted scenario prefix. After every accepted record: fresh validating AND keep-identity views of every principal from the raw log, key material vs harness ground truth, explicit derivation closure over every ciphertext of the log, exact-recipient check of every read-key change. A history is non-trivial when it contains >= 1 accepted removal (so an ex-member was observed against a later generation) and >= 2 members were observed at some point; distinct = accepted-operation sequence. trees: same generator (permission changes on accounts without permissions excluded, reported by the keys workload) with encrypted content written by current writers under each generation into a real any-store backed verifying tree; non-trivial = >= 2 generations carry content and >= 2 members read it back; distinct = accepted ops + write positions. sessions: same generator with 4 of 6 cases starting with a remove-and-come-back prefix; owner, a, b, c each keep ONE live validating ACL list (fed every accepted record by AddRawRecord) and ONE live tree object on an own database (fed every change by AddRawChanges) from first admission to the end, also while removed; current writers write encrypted content through these objects (re-admitted accounts preferred); judged: ciphertext under the tree key of the generation the read-key id names, no plaintext marker in the raw change, every current member's living tree presents the original content of every change; non-trivial = >= 2 generations carry content and >= 2 sessions."
 }
 func (Prop) Assumptions() []string {
 	return []string{
 		"an account principal derives with its own account key and read keys it legitimately held; invite keys are separate principals (a bearer of a live open invite is entitled to the current key)",
 		"key material is compared for AclState.Keys()[id].ReadKey only (metadata keys are outside the statement)",
-		"trees are read through freshly built trees on freshly built ACL views (long-lived tree objects with stale key caches are not exercised)",
+		"the trees workload reads through freshly built trees on freshly built ACL views; long-lived ACL lists and tree objects (fed incrementally, written through after a removal and re-admission) are the sessions workload",
 		"tree read-back is skipped (counted) once an author of the tree was re-admitted through AccountsAdd — observation O-1 (over-rejection) is outside the statement",
 	}
 }
@@ -37,12 +37,14 @@ func (Prop) Plan(tier string) []lib.Workload {
 			{Name: "keys", Cases: 9000, MinNontrivial: 4000},
 			{Name: "trees", Cases: 3000, MinNontrivial: 1000},
 			{Name: "nokey", Cases: 400, MinNontrivial: 100},
+			{Name: "sessions", Cases: 3000, MinNontrivial: 800},
 		}
 	}
 	return []lib.Workload{
 		{Name: "keys", Cases: 256, MinNontrivial: 100},
 		{Name: "trees", Cases: 96, MinNontrivial: 24},
 		{Name: "nokey", Cases: 32, MinNontrivial: 16},
+		{Name: "sessions", Cases: 96, MinNontrivial: 24},
 	}
 }
 
@@ -54,6 +56,8 @@ func (Prop) RunCase(c *lib.Case) {
 		runTrees(c)
 	case "nokey":
 		runNoKey(c)
+	case "sessions":
+		runSessions(c)
 	}
 }
 
